@@ -162,6 +162,10 @@ class ConcreteCtx(_Base):
     def lower_cp(self, c):
         return c + 32 if 65 <= c <= 90 else c
 
+    def ip_text(self, v4, packed):
+        import socket
+        return socket.inet_ntop(socket.AF_INET if v4 else socket.AF_INET6, bytes(packed))
+
     def text_of(self, cps):
         return ''.join(chr(c) for c in cps)
 
@@ -358,6 +362,11 @@ def make_symctx_class():
 
         def lower_cp(self, c):
             return vtypes._lower(c)
+
+        def ip_text(self, v4, packed):
+            from . import stubs
+            import socket
+            return stubs.make_socket().inet_ntop(socket.AF_INET if v4 else socket.AF_INET6, vtypes.VBytes(packed))
 
         def text_of(self, cps):
             return vtypes.VStr._mk(list(cps))
